@@ -172,6 +172,14 @@ Section HistModel.
   (* an audit path is a Go map: a later write to the same key wins *)
   Definition path_get (p : list (pos * D)) : cache := fun k => assoc pos_eqb k (rev p).
 
+  (* Since fix 10a81c4 the verifier treats an audit-path entry that is not a digest of the hasher's length as
+     missing.  [checked okD] is that lookup (computeHashVisitor.VisitGetCacheOp); [wf_path okD] is the same thing done
+     once on the decoded path (History/HistChecked.v: the two agree on paths without duplicate keys - Go maps). *)
+  Definition checked (okD : D -> bool) (c : cache) : cache :=
+    fun k => match c k with Some d => if okD d then Some d else None | None => None end.
+  Definition wf_path (okD : D -> bool) (p : list (pos * D)) : list (pos * D) :=
+    filter (fun kv => okD (snd kv)) p.
+
   (* insertVisitor: threads the write cache (puts) and accumulates the mutations;
      state = (puts so far, mutations so far), most recent first *)
   Definition ins_state := (list (pos * D) * list (pos * D))%type.
@@ -265,4 +273,6 @@ Arguments checkc_go {E}. Arguments pruneToCheckConsistency {E}.
 Arguments verify_go {E}. Arguments pruneToVerify {E}. Arguments vstart_go {E}. Arguments pruneToVerifyIncrementalStart {E}.
 Arguments vend_go {E}. Arguments pruneToVerifyIncrementalEnd {E}.
 Arguments path_get {D}.
+Arguments checked {D}.
+Arguments wf_path {D}.
 Arguments ins_get {D}.
